@@ -72,6 +72,15 @@ func (d *arpDriver) realtime(variant int) {
 	}
 	a2 := packet.Addr{MAC: u.HuntMAC("m2"), IP: u.HuntIP(second)}
 	sleepUntil := func(ms int) { time.Sleep(time.Until(t0.Add(time.Duration(ms) * time.Millisecond))) }
+	// loop numbers are given in the order the loop goroutines announce themselves: wait for the loop of an effective
+	// StartHunt before the next call, so that the numbering follows the call order even on a loaded machine
+	startHunt := func(a packet.Addr) {
+		n0, e0 := c.nLoops(), c.nEvents()
+		d.h.StartHunt(a)
+		if c.countSinceB1(e0, "start") > 0 {
+			c.waitFor(5*time.Second, func() bool { return len(c.order) > n0 })
+		}
+	}
 	if variant >= 100 {
 		// "stop all": 2-4 hosts hunted at distinct addresses, all stopped after one second; every loop must end
 		// (and restore its target) within one genuine 6 s cycle of its own -- rt.done carries the delay
@@ -81,7 +90,7 @@ func (d *arpDriver) realtime(variant int) {
 			addrs = append(addrs, packet.Addr{MAC: u.HuntMAC("m" + string(rune('0'+k))), IP: u.HuntIP("a" + string(rune('0'+k)))})
 		}
 		for k, a := range addrs {
-			d.h.StartHunt(a)
+			startHunt(a)
 			sleepUntil(60 * (k + 1))
 		}
 		sleepUntil(1000)
@@ -90,17 +99,17 @@ func (d *arpDriver) realtime(variant int) {
 		}
 		sleepUntil(9800) // the cycles that started at 0..240 ms end at 6.0-6.3 s; 3.5 s of slack
 	} else {
-	d.h.StartHunt(a1)
+	startHunt(a1)
 	sleepUntil(100)
-	d.h.StartHunt(a2)
+	startHunt(a2)
 	sleepUntil(150)
-	d.h.StartHunt(a1) // idempotent
+	startHunt(a1) // idempotent
 	sleepUntil(6500 + 300*(variant%3))
 	d.h.StopHunt(a1)
 	sleepUntil(13000)
 	d.h.StopHunt(packet.Addr{MAC: u.HuntMAC("m3"), IP: u.HuntIP("a3")}) // not hunted
 	sleepUntil(14000)
-	d.h.StartHunt(a1)
+	startHunt(a1)
 	sleepUntil(16000) // 4 s and 2 s after the last ticks of the two generations: no loop is between check and act
 	}
 	c.mu.Lock()
